@@ -415,7 +415,7 @@ func runC15(c *Ctx) {
 		}
 	}
 
-	sharedSliceAppends(c)
+	sharedSliceAppends(c, "C15.R8")
 
 	// R5 ------------------------------------------------------------
 	wp := c.pkg("cmd/templ/generatecmd/watcher")
@@ -765,7 +765,7 @@ func errVarOfCond(e ast.Expr) string {
 
 // sharedSliceAppends: C15.R8 — a slice field of the event handler that per-event (concurrent) methods append to without
 // copying must be handed over without spare capacity, otherwise the appends write into one shared backing array.
-func sharedSliceAppends(c *Ctx) {
+func sharedSliceAppends(c *Ctx, rule string) {
 	p := c.pkg("cmd/templ/generatecmd")
 	info := p.TypesInfo
 	n := 0
@@ -874,7 +874,7 @@ func sharedSliceAppends(c *Ctx) {
 					return true
 				})
 			}
-			c.check(why == "", "C15.R8", key, c.pos(call.Pos()), "the slice is handed over without declared spare capacity (nil / literal, grown by append only)",
+			c.check(why == "", rule, key, c.pos(call.Pos()), "the slice is handed over without declared spare capacity (nil / literal, grown by append only)",
 				fmt.Sprintf("%s appends to the shared field %s without copying it, and %s: concurrent workers write their per-file element into one shared backing array (one file's generator option — e.g. its file name — ends up in another file's output)", fd.Name.Name, field, why))
 			return true
 		})
